@@ -4,6 +4,7 @@ import importlib, json, sys
 from pathlib import Path
 V = Path(__file__).resolve().parent.parent
 sys.path.insert(0, str(V)); sys.path.insert(0, str(V / ".deps"))
+from tools.manifest_texts import TEXTS, COMMON
 props = [json.loads(l) for l in (V / "properties.jsonl").read_text().splitlines() if l.strip()]
 BASE = ("cd /repo && /venv/bin/python -m pytest -ra -q -p no:cacheprovider --timeout=900 "
         "--continue-on-collection-errors")
@@ -23,10 +24,10 @@ for p in props:
         "replay_cmd_template": f"./check {pid} --replay {{path}}",
         "engine": getattr(m, "ENGINE", "reference-model monitors"),
         "level_claimed": {"category": "exploration",
-                          "text": getattr(m, "LEVEL_TEXT", m.RULE),
+                          "text": TEXTS[pid][1] + COMMON + " Workload: " + m.RULE,
                           "design_ref": f"DESIGN.md section 5 {pid}"},
         "level_note": getattr(m, "LEVEL_NOTE", "; ".join(getattr(m, "ASSUMPTIONS", [])) or "oracle written from the property text; finite executions only"),
-        "technique": getattr(m, "TECHNIQUE", "runtime monitoring: reference-model oracle over observed executions of the real code"),
+        "technique": TEXTS[pid][0],
     })
 man = {
     "version": 1,
